@@ -833,4 +833,357 @@ Proof.
     + exact H5.
     + unfold seg_fail. simpl. rewrite Hb'. eexists. split; [reflexivity|]. split; [exact Hpost|exact H6].
 Qed.
+
+(* ---- the invariant determines the state up to dstate_equiv *)
+Lemma keys_sub : forall g K1 K2, (forall d, cnt_good g K1 d) -> (forall d, cnt_good g K2 d) ->
+  forall m q, list_max (map (@List.length name) (keys K1)) < List.length q + m ->
+              inK K1 q = true -> inK K2 q = true.
+Proof.
+  intros g K1 K2 G1 G2. induction m as [|m IH]; intros q Hlen Hin.
+  - exfalso. apply inK_In in Hin.
+    assert (Hle : List.length q <= list_max (map (@List.length name) (keys K1))).
+    { pose proof (proj1 (list_max_le (map (@List.length name) (keys K1)) _) (le_n _)) as HF.
+      rewrite Forall_forall in HF. apply HF. apply in_map. exact Hin. }
+    lia.
+  - pose proof (G1 q) as Hq. unfold cnt_good in Hq. unfold inK in Hin.
+    destruct (g q + nkids K1 q) as [|n] eqn:En; simpl in Hq; rewrite Hq in Hin; [discriminate|].
+    destruct (g q) as [|gq] eqn:Eg.
+    + simpl in En. assert (Hk : 1 <= nkids K1 q) by lia.
+      destruct (nkids_pos_inv _ _ Hk) as [c [Hc1 Hc2]]. destruct (is_child_eq _ _ Hc2) as [x ->].
+      apply (keys_up g K2 x); [exact G2|]. apply IH; [simpl; lia|]. apply inK_In. exact Hc1.
+    + unfold inK. rewrite (G2 q), Eg. reflexivity.
+Qed.
+
+Lemma keys_eq : forall g K1 K2, (forall d, cnt_good g K1 d) -> (forall d, cnt_good g K2 d) ->
+  forall q, inK K1 q = inK K2 q.
+Proof.
+  intros g K1 K2 G1 G2 q.
+  destruct (inK K1 q) eqn:E1.
+  - symmetry. apply (keys_sub g K1 K2 G1 G2 (S (list_max (map (@List.length name) (keys K1))))); [lia|exact E1].
+  - destruct (inK K2 q) eqn:E2; [|reflexivity].
+    rewrite <- E1. apply (keys_sub g K2 K1 G2 G1 (S (list_max (map (@List.length name) (keys K2))))); [lia|exact E2].
+Qed.
+
+Lemma nkids_eq : forall K1 K2, NoDup (keys K1) -> NoDup (keys K2) ->
+  (forall q, inK K1 q = inK K2 q) -> forall d, nkids K1 d = nkids K2 d.
+Proof.
+  intros K1 K2 N1 N2 Hk d. unfold nkids. apply Permutation_length. apply NoDup_Permutation.
+  - apply NoDup_filter. exact N1.
+  - apply NoDup_filter. exact N2.
+  - intro c. rewrite !filter_In, <- !inK_In, Hk. tauto.
+Qed.
+
+Lemma cnt_same_half : forall K1 K2, NoDup (keys K1) -> (forall q, cnt_get K1 q = cnt_get K2 q) ->
+  forallb (fun e => match cnt_get K2 (fst e) with Some n => Nat.eqb n (snd e) | None => false end) K1 = true.
+Proof.
+  intros K1 K2 N1 H. apply forallb_forall. intros [q n] Hin. simpl.
+  rewrite <- H, (cnt_get_In K1 q n N1 Hin). apply Nat.eqb_refl.
+Qed.
+
+Lemma same_set_ext : forall a b, (forall q, mem_path q a = mem_path q b) -> same_set a b = true.
+Proof.
+  intros a b H. unfold same_set. apply andb_true_iff. split; apply forallb_forall; intros q Hq.
+  - rewrite <- H. apply mem_path_In. exact Hq.
+  - rewrite H. apply mem_path_In. exact Hq.
+Qed.
+
+Lemma Inv_unique : forall nf an s1 s2, Inv nf an s1 -> Inv nf an s2 -> dstate_equiv s1 s2 = true.
+Proof.
+  intros nf an s1 s2 [(A1 & A2 & A3 & A4 & A5) A6] [(B1 & B2 & B3 & B4 & B5) B6].
+  pose proof (keys_eq nf _ _ A2 B2) as Hk.
+  pose proof (nkids_eq _ _ A1 B1 Hk) as Hn.
+  assert (Hg : forall q, cnt_get (bd_counts (d_bd s1)) q = cnt_get (bd_counts (d_bd s2)) q).
+  { intro q. rewrite (A2 q), (B2 q), Hn. reflexivity. }
+  unfold dstate_equiv. rewrite !andb_true_iff. repeat split.
+  - apply same_set_ext. intro q. rewrite A4, B4, Hk. reflexivity.
+  - apply same_set_ext. intro q. rewrite A5, B5, Hk. reflexivity.
+  - unfold cnt_same. apply andb_true_iff. split; apply cnt_same_half; auto.
+  - apply same_set_ext. intro q. rewrite A6, B6. reflexivity.
+Qed.
+
+(* ---- configurations: what is reserved / started is read off the program counters *)
+Definition reserved (tp : thread * tstep) : bool :=
+  match snd tp with TStart => false | TEnd => true | TDone => t_ok (fst tp) end.
+Definition started (tp : thread * tstep) : bool :=
+  match snd tp with TStart => false | _ => true end.
+Definition nfc (ts : list (thread * tstep)) (d : path) : nat :=
+  List.length (filter (fun tp => reserved tp && is_child (t_path (fst tp)) d) ts).
+Definition anc (ts : list (thread * tstep)) (q : path) : bool :=
+  existsb (fun tp => started tp && below q (t_path (fst tp))) ts.
+Definition CInv (c : config) : Prop := Inv (nfc (snd c)) (anc (snd c)) (fst c).
+Definition pc_next (pc : tstep) : tstep := match pc with TStart => TEnd | _ => TDone end.
+
+Lemma filter_len_update : forall (A : Type) (f : A -> bool) y l i x, nth_error l i = Some x ->
+  List.length (filter f (update_nth i y l)) + (if f x then 1 else 0) =
+  List.length (filter f l) + (if f y then 1 else 0).
+Proof.
+  intros A f y. induction l as [|a l IH]; intros i x H; destruct i as [|i]; simpl in H; try discriminate.
+  - inversion H; subst. simpl. destruct (f x), (f y); simpl; lia.
+  - simpl. specialize (IH i x H). destruct (f a); simpl; lia.
+Qed.
+
+Lemma existsb_update_false : forall (A : Type) (f : A -> bool) y l i x, nth_error l i = Some x ->
+  f x = false -> existsb f (update_nth i y l) = f y || existsb f l.
+Proof.
+  intros A f y. induction l as [|a l IH]; intros i x H Hx; destruct i as [|i]; simpl in H; try discriminate.
+  - inversion H; subst. simpl. rewrite Hx. reflexivity.
+  - simpl. rewrite (IH i x H Hx). destruct (f a), (f y); reflexivity.
+Qed.
+
+Lemma existsb_update_same : forall (A : Type) (f : A -> bool) y l i x, nth_error l i = Some x ->
+  f x = f y -> existsb f (update_nth i y l) = existsb f l.
+Proof.
+  intros A f y. induction l as [|a l IH]; intros i x H Hx; destruct i as [|i]; simpl in H; try discriminate.
+  - inversion H; subst. simpl. rewrite Hx. reflexivity.
+  - simpl. rewrite (IH i x H Hx). reflexivity.
+Qed.
+
+Lemma nth_error_filter_pos : forall (A : Type) (f : A -> bool) l i x, nth_error l i = Some x ->
+  f x = true -> 1 <= List.length (filter f l).
+Proof.
+  intros A f l i x H Hx. apply nth_error_In in H.
+  assert (Hin : In x (filter f l)) by (apply filter_In; auto).
+  destruct (filter f l); [contradiction|simpl; lia].
+Qed.
+
+(* one step of one thread: never a KeyError, the invariant is kept *)
+Lemma step_inv : forall s ts i t pc, CInv (s, ts) -> nth_error ts i = Some (t, pc) ->
+  exists s', step_thread base s t pc = Some (s', pc_next pc) /\ CInv (s', update_nth i (t, pc_next pc) ts).
+Proof.
+  intros s ts i t pc HI Hn. unfold CInv in *. cbn [fst snd] in *. destruct pc; cbn [step_thread pc_next].
+  - (* TStart *)
+    eexists. split; [reflexivity|]. cbn [fst snd].
+    apply (Inv_ext (nf_add (nfc ts) (t_path t)) _ (an_add (anc ts) (t_path t)) _); [| |apply seg_start_inv; exact HI].
+    + intro d. unfold nf_add, nfc.
+      pose proof (filter_len_update _ (fun tp => reserved tp && is_child (t_path (fst tp)) d) (t, TEnd) ts i _ Hn) as H.
+      cbn [reserved fst snd andb] in H. lia.
+    + intro q. unfold an_add, anc.
+      rewrite (existsb_update_false _ (fun tp => started tp && below q (t_path (fst tp))) (t, TEnd) ts i _ Hn) by reflexivity.
+      cbn [started fst snd andb]. apply orb_comm.
+  - (* TEnd *)
+    destruct (t_ok t) eqn:Eok.
+    + eexists. split; [reflexivity|]. cbn [fst snd]. apply (Inv_ext (nfc ts) _ (anc ts) _); [| |exact HI].
+      * intro d. unfold nfc.
+        pose proof (filter_len_update _ (fun tp => reserved tp && is_child (t_path (fst tp)) d) (t, TDone) ts i _ Hn) as H.
+        cbn [reserved fst snd] in H. rewrite Eok in H. destruct (true && is_child (t_path t) d); lia.
+      * intro q. unfold anc. symmetry. apply (existsb_update_same _ _ _ _ _ _ Hn). reflexivity.
+    + destruct (seg_fail_inv (nfc ts) (anc ts) s (t_path t) HI) as [s' [Hs' HI']].
+      { intros x d Hp. unfold nfc.
+        apply (nth_error_filter_pos _ _ _ _ _ Hn). cbn [reserved fst snd]. rewrite Hp. simpl. apply path_eqb_refl. }
+      rewrite Hs'. eexists. split; [reflexivity|]. cbn [fst snd].
+      apply (Inv_ext (nf_sub (nfc ts) (t_path t)) _ (anc ts) _); [| |exact HI'].
+      * intro d. unfold nf_sub, nfc.
+        pose proof (filter_len_update _ (fun tp => reserved tp && is_child (t_path (fst tp)) d) (t, TDone) ts i _ Hn) as H.
+        cbn [reserved fst snd] in H. rewrite Eok in H. cbn [andb] in H. lia.
+      * intro q. unfold anc. symmetry. apply (existsb_update_same _ _ _ _ _ _ Hn). reflexivity.
+  - (* TDone *)
+    eexists. split; [reflexivity|]. cbn [fst snd]. apply (Inv_ext (nfc ts) _ (anc ts) _); [| |exact HI].
+    + intro d. unfold nfc.
+      pose proof (filter_len_update _ (fun tp => reserved tp && is_child (t_path (fst tp)) d) (t, TDone) ts i _ Hn) as H.
+      destruct ((fun tp => reserved tp && is_child (t_path (fst tp)) d) (t, TDone)); lia.
+    + intro q. unfold anc. symmetry. apply (existsb_update_same _ _ _ _ _ _ Hn). reflexivity.
+Qed.
+
+Fixpoint run_pcs (sched : list nat) (ts : list (thread * tstep)) : list (thread * tstep) :=
+  match sched with
+  | [] => ts
+  | i :: rest =>
+      match nth_error ts i with
+      | None => run_pcs rest ts
+      | Some (t, pc) => run_pcs rest (update_nth i (t, pc_next pc) ts)
+      end
+  end.
+
+Lemma run_inv : forall sched s ts, CInv (s, ts) ->
+  exists s', run_sched base sched (s, ts) = Some (s', run_pcs sched ts) /\ CInv (s', run_pcs sched ts).
+Proof.
+  induction sched as [|i rest IH]; intros s ts HI.
+  - exists s. split; [reflexivity|exact HI].
+  - cbn [run_sched run_pcs]. destruct (nth_error ts i) as [[t pc]|] eqn:En.
+    + destruct (step_inv s ts i t pc HI En) as [s' [Hs' HI']]. rewrite Hs'. apply IH. exact HI'.
+    + apply IH. exact HI.
+Qed.
 End Dirs.
+
+(* ---- program counters *)
+Lemma map_fst_update : forall (ts : list (thread * tstep)) i t pc pc',
+  nth_error ts i = Some (t, pc) -> map fst (update_nth i (t, pc') ts) = map fst ts.
+Proof.
+  induction ts as [|a ts IH]; intros i t pc pc' H; destruct i as [|i]; simpl in H; try discriminate.
+  - inversion H; subst. reflexivity.
+  - simpl. f_equal. apply (IH i t pc). exact H.
+Qed.
+
+Lemma map_fst_run_pcs : forall sched ts, map fst (run_pcs sched ts) = map fst ts.
+Proof.
+  induction sched as [|i rest IH]; intro ts; [reflexivity|]. simpl.
+  destruct (nth_error ts i) as [[t pc]|] eqn:En; [|apply IH].
+  rewrite IH. apply (map_fst_update _ _ _ pc). exact En.
+Qed.
+
+Definition is_done (tp : thread * tstep) : bool := match snd tp with TDone => true | _ => false end.
+
+Lemma all_done_eq : forall l1 l2 : list (thread * tstep),
+  forallb is_done l1 = true -> forallb is_done l2 = true -> map fst l1 = map fst l2 -> l1 = l2.
+Proof.
+  induction l1 as [|[t1 pc1] l1 IH]; intros [|[t2 pc2] l2] H1 H2 Hm; simpl in *; try discriminate; [reflexivity|].
+  apply andb_true_iff in H1. apply andb_true_iff in H2. destruct H1 as [D1 H1], H2 as [D2 H2].
+  inversion Hm; subst. unfold is_done in D1, D2. simpl in D1, D2.
+  destruct pc1; try discriminate. destruct pc2; try discriminate. f_equal. apply IH; assumption.
+Qed.
+
+Lemma update_nth_app : forall (A : Type) (l1 : list A) x y l2,
+  update_nth (List.length l1) y (l1 ++ x :: l2) = l1 ++ y :: l2.
+Proof. intros A l1 x y l2. induction l1 as [|a l1 IH]; simpl; [reflexivity|]. rewrite IH. reflexivity. Qed.
+
+Lemma nth_error_app_mid : forall (A : Type) (l1 : list A) x l2, nth_error (l1 ++ x :: l2) (List.length l1) = Some x.
+Proof. intros A l1 x l2. induction l1 as [|a l1 IH]; simpl; [reflexivity|exact IH]. Qed.
+
+Lemma run_pcs_seq : forall (rest : list thread) (done : list (thread * tstep)),
+  run_pcs (flat_map (fun i => [i; i]) (seq (List.length done) (List.length rest)))
+          (done ++ map (fun t => (t, TStart)) rest) = done ++ map (fun t => (t, TDone)) rest.
+Proof.
+  induction rest as [|t rest IH]; intro done; [reflexivity|].
+  cbn [List.length seq flat_map app map run_pcs].
+  rewrite nth_error_app_mid, update_nth_app. cbn [pc_next].
+  rewrite nth_error_app_mid, update_nth_app. cbn [pc_next].
+  specialize (IH (done ++ [(t, TDone)])). rewrite app_length in IH. simpl in IH.
+  rewrite Nat.add_1_r, <- !app_assoc in IH. exact IH.
+Qed.
+
+Lemma all_done_seq : forall ts, all_done (@pair dstate _ {| d_bd := bd_init [] []; d_disk := [] |}
+     (run_pcs (seq_sched (List.length ts)) (map (fun t => (t, TStart)) ts))) = true.
+Proof.
+  intro ts. unfold all_done, seq_sched. cbn [snd].
+  pose proof (run_pcs_seq ts []) as H. cbn [List.length app] in H. rewrite H.
+  clear H. induction ts as [|t ts IH]; [reflexivity|exact IH].
+Qed.
+
+Lemma CInv_init : forall base ts, CInv base (init_config ts).
+Proof.
+  intros base ts. unfold CInv, init_config. cbn [fst snd].
+  assert (Hn : forall d, nfc (map (fun t => (t, TStart)) ts) d = 0).
+  { intro d. unfold nfc. induction ts as [|t ts IH]; [reflexivity|exact IH]. }
+  assert (Ha : forall q, anc (map (fun t => (t, TStart)) ts) q = false).
+  { intro q. unfold anc. clear Hn. induction ts as [|t ts IH]; [reflexivity|exact IH]. }
+  split; [split; [constructor|]; split; [|split; [|split]]|]; simpl.
+  - intro d. unfold cnt_good. rewrite Hn. reflexivity.
+  - intros q H. discriminate.
+  - intro q. reflexivity.
+  - intro q. rewrite Ha. reflexivity.
+  - intro q. rewrite Ha. reflexivity.
+Qed.
+
+(* the directories that exist independently of the build have existing parents *)
+Definition base_closed (base : list path) : Prop :=
+  forall x d, mem_path (x :: d) base = true -> mem_path d base = true.
+
+(* the counters do not depend on [base] nor on which directories were made *)
+Lemma started_counts_indep : forall parent b b' cds cds' acc acc', bd_counts b = bd_counts b' ->
+  bd_counts (fst (bd_started_from b cds parent acc)) = bd_counts (fst (bd_started_from b' cds' parent acc')).
+Proof.
+  induction parent as [|x d IH]; intros b b' cds cds' acc acc' H; rewrite (started_from_eq b), (started_from_eq b'); cbv zeta; rewrite H;
+    destruct (Nat.ltb 0 _); try reflexivity.
+  - destruct (mem_path [] cds), (mem_path [] cds'); reflexivity.
+  - destruct (mem_path (x :: d) cds), (mem_path (x :: d) cds'); apply IH; reflexivity.
+Qed.
+
+Definition same_counts_opt (r r' : option bdirs) : Prop :=
+  match r, r' with
+  | Some b, Some b' => bd_counts b = bd_counts b'
+  | None, None => True
+  | _, _ => False
+  end.
+
+Lemma error_counts_indep : forall parent b b', bd_counts b = bd_counts b' ->
+  same_counts_opt (bd_error_from b parent) (bd_error_from b' parent).
+Proof.
+  induction parent as [|x d IH]; intros b b' H; rewrite (error_from_eq b), (error_from_eq b'); rewrite H;
+    (destruct (cnt_get (bd_counts b') _) as [n|]; [|exact I]); cbv zeta;
+    (destruct (Nat.ltb 0 (n - 1)); [simpl; reflexivity|]).
+  - cbn [bd_with bd_created]. destruct (mem_path [] (bd_created b)), (mem_path [] (bd_created b')); simpl; reflexivity.
+  - cbn [bd_with bd_created].
+    destruct (mem_path (x :: d) (bd_created b)), (mem_path (x :: d) (bd_created b')); apply IH; simpl; reflexivity.
+Qed.
+
+Definition cnt_sim (c c' : config) : Prop :=
+  bd_counts (d_bd (fst c)) = bd_counts (d_bd (fst c')) /\ snd c = snd c'.
+
+Lemma run_counts_indep : forall base base' sched c c', cnt_sim c c' ->
+  match run_sched base sched c, run_sched base' sched c' with
+  | Some r, Some r' => cnt_sim r r'
+  | None, None => True
+  | _, _ => False
+  end.
+Proof.
+  intros base base'. induction sched as [|i rest IH]; intros [s ts] [s' ts'] [H1 H2]; cbn [fst snd] in *; subst ts'.
+  - simpl. split; [exact H1|reflexivity].
+  - cbn [run_sched]. destruct (nth_error ts i) as [[t pc]|] eqn:En; [|apply IH; split; [exact H1|reflexivity]].
+    destruct pc; cbn [step_thread].
+    + apply IH. split; [|reflexivity]. cbn [fst]. unfold seg_start.
+      destruct (t_path t) as [|x d].
+      * simpl. exact H1.
+      * unfold bd_started.
+        match goal with |- bd_counts (d_bd (let '(b1, _) := ?X in _)) = bd_counts (d_bd (let '(b2, _) := ?Y in _)) =>
+          assert (E : bd_counts (fst X) = bd_counts (fst Y)) by (apply started_counts_indep; exact H1);
+          destruct X, Y; exact E end.
+    + destruct (t_ok t); [apply IH; split; [exact H1|reflexivity]|].
+      unfold seg_fail, bd_error. destruct (t_path t) as [|x d].
+      * apply IH. split; [exact H1|reflexivity].
+      * pose proof (error_counts_indep d (d_bd s) (d_bd s') H1) as E. unfold same_counts_opt in E.
+        destruct (bd_error_from (d_bd s) d), (bd_error_from (d_bd s') d); try contradiction; [|exact I].
+        apply IH. split; [exact E|reflexivity].
+    + apply IH. split; [exact H1|reflexivity].
+Qed.
+
+(* B1a for whole runs: under the creation lock no schedule ever hits the KeyError
+   (for any [base]: the counters do not depend on it) *)
+Theorem dirs_no_key_error : forall base ts sched, run_sched base sched (init_config ts) <> None.
+Proof.
+  intros base ts sched Hnone.
+  assert (Hb : base_closed []) by (intros x d H; discriminate).
+  destruct (run_inv [] Hb sched _ _ (CInv_init [] ts)) as [s' [H _]].
+  pose proof (run_counts_indep base [] sched (init_config ts) (init_config ts) (conj eq_refl eq_refl)) as Hs.
+  rewrite Hnone in Hs. unfold init_config in Hs. rewrite H in Hs. exact Hs.
+Qed.
+
+(* Without [base_closed] the statement is false: if d/c exists before the build but d
+   is (inconsistently) not in [base], who is recorded as the creator of d depends on
+   the order. *)
+Example dirs_serializable_needs_closed_base :
+  exists base ts sched c,
+    NoDup (map t_path ts) /\ run_sched base sched (init_config ts) = Some c /\ all_done c = true /\
+    exists c', run_sched base (seq_sched (List.length ts)) (init_config ts) = Some c' /\
+               dstate_equiv (fst c) (fst c') = false.
+Proof.
+  exists [["c"; "d"]%string].
+  exists [ {| t_path := ["f"; "c"; "d"]%string; t_ok := true |}; {| t_path := ["g"; "d"]%string; t_ok := true |} ].
+  exists [1; 1; 0; 0]. eexists. split; [|split; [vm_compute; reflexivity|split; [vm_compute; reflexivity|]]].
+  - simpl. constructor; [|constructor; [|constructor]]; simpl; [|tauto].
+    intros [H|[]]. discriminate.
+  - eexists. split; vm_compute; reflexivity.
+Qed.
+
+(* DEVIATION from the requested form: the additional hypothesis [base_closed base]
+   (see the counterexample above).  [NoDup (map t_path ts)] is kept but not needed. *)
+Theorem dirs_serializable : forall base ts sched c,
+  base_closed base ->
+  NoDup (map t_path ts) ->
+  run_sched base sched (init_config ts) = Some c -> all_done c = true ->
+  exists c', run_sched base (seq_sched (List.length ts)) (init_config ts) = Some c' /\
+             all_done c' = true /\ dstate_equiv (fst c) (fst c') = true.
+Proof.
+  intros base ts sched c Hb _ Hrun Hdone.
+  destruct (run_inv base Hb sched _ _ (CInv_init base ts)) as [s1 [H1 I1]].
+  destruct (run_inv base Hb (seq_sched (List.length ts)) _ _ (CInv_init base ts)) as [s2 [H2 I2]].
+  unfold init_config in Hrun. rewrite H1 in Hrun. inversion Hrun; subst c. clear Hrun.
+  exists (s2, run_pcs (seq_sched (List.length ts)) (map (fun t => (t, TStart)) ts)).
+  assert (Hd2 : all_done (s2, run_pcs (seq_sched (List.length ts)) (map (fun t => (t, TStart)) ts)) = true)
+    by (apply (all_done_seq ts)).
+  split; [exact H2|]. split; [exact Hd2|]. cbn [fst].
+  assert (E : run_pcs sched (map (fun t => (t, TStart)) ts) =
+              run_pcs (seq_sched (List.length ts)) (map (fun t => (t, TStart)) ts)).
+  { apply all_done_eq; [exact Hdone|exact Hd2|]. rewrite !map_fst_run_pcs. reflexivity. }
+  unfold CInv in I1, I2. cbn [fst snd] in I1, I2. rewrite E in I1.
+  apply (Inv_unique base _ _ _ _ I1 I2).
+Qed.
